@@ -200,13 +200,15 @@ def main():
                 ('punctuated-tokens', '{"a.b", "axb", "c+", "c", "c+,c", "a|b", "a*"}', '{"a"}', '{"a","b"}', '{"x"}', MAPS_OLD, ['{"multi"}']),
                 ('mappings', '{"a"}', '{"a","b"}', '{"a","b"}', '{"x","y"}', MAPS_MULTI, ['{"sub"}']),
                 ('focus', '{"a", "a,b"}', '{"a","b"}', '{"a","b"}', '{"x"}', MAPS_OLD, ['{"interact"}', '{}']),
-                ('transform', '{"a"}', '{"a","b"}', '{"a"}', '{"1", "", "q3", "4"}', MAPS_OLD, ['{"transform"}', '{"transform","interact"}'])]
+                ('transform', '{"a"}', '{"a","b"}', '{"a"}', '{"1", "", "q3", "4"}', MAPS_OLD, ['{"transform"}', '{"transform","interact"}']),
+                ('whitespace-selectors', '{"a"}', '{"a","b"}', '{"a", "a ", "b"}', '{"x"}', MAPS_OLD, ['{"sub"}'])]
     else:
         runs = [('plain', '{"", "a", "b", "a,b", "b-a", "c-"}', '{"a","b"}', '{"a","b"}', '{"x"}', MAPS_OLD, full),
                 ('punctuated-tokens', '{"a.b", "axb", "c+", "c", "c+,c", "a|b", "a*", "(a", "aa", "a.b-axb", "a"}', '{"a"}', '{"a","b"}', '{"x"}', MAPS_OLD, ['{"multi"}', '{"multi","interact"}']),
                 ('mappings', '{"a", "a,b"}', '{"a","b"}', '{"a","b"}', '{"x","y"}', MAPS_MULTI, ['{"sub"}', '{"sub","multi","interact"}']),
                 ('focus', '{"a", "a,b", "b"}', '{"a","b"}', '{"a","b"}', '{"x","y"}', MAPS_OLD, ['{"interact"}', '{}', '{"noise"}']),
-                ('transform', '{"a", "a,b"}', '{"a","b"}', '{"a"}', '{"1", "", "q3", "4", "q2.5", "-2"}', MAPS_OLD, ['{"transform"}', '{"transform","interact"}', '{"transform","sub","noise"}'])]
+                ('transform', '{"a", "a,b"}', '{"a","b"}', '{"a"}', '{"1", "", "q3", "4", "q2.5", "-2"}', MAPS_OLD, ['{"transform"}', '{"transform","interact"}', '{"transform","sub","noise"}']),
+                ('whitespace-selectors', '{"a"}', '{"a","b", " a"}', '{"a", "a ", "b", "b "}', '{"x"}', MAPS_OLD, ['{"sub"}', '{"sub","interact"}'])]
     for run_label, MV, AV, BV, CV, MAPS, flagsets in runs:
         run_config(V, rng, tier, run_label, MV, AV, BV, CV, MAPS, flagsets)
     V.coverage['exhaustive'] = True
